@@ -410,7 +410,10 @@ fn value_fwd(m: &mut Monitor, x: u128) {
 
 fn rand_decimal(rng: &mut Rng) -> Decimal {
     let mant: u128 = match rng.below(4) {
-        0 => rng.biased_u128(MAX_REPR, 10u128.pow(rng.range(0, 28) as u32)),
+        0 => {
+            let unit = 10u128.pow(rng.range(0, 28) as u32);
+            rng.biased_u128(MAX_REPR, unit)
+        }
         1 => rng.log_u128(MAX_REPR),
         2 => rng.biased_u128(u64::MAX as u128, 1_000_000),
         _ => rng.range_u128(0, MAX_REPR),
@@ -460,7 +463,10 @@ pub fn run(args: &Args) -> i32 {
             match rng.below(4) {
                 0 => {
                     let x = match rng.below(3) {
-                        0 => rng.biased_u128(u128::MAX, 10u128.pow(rng.range(0, 38) as u32)),
+                        0 => {
+                            let unit = 10u128.pow(rng.range(0, 38) as u32);
+                            rng.biased_u128(u128::MAX, unit)
+                        }
                         1 => rng.log_u128(u128::MAX),
                         _ => rng.next_u128(),
                     };
